@@ -260,6 +260,7 @@ pub fn cases(suite: &str, tier: &str, seed: u64, props: &BTreeSet<String>) -> Ve
         }
         "qry" => out.extend(crate::qry::cases(tier, seed)),
         "cfgmat" => out.extend(crate::cfgmat::cases(tier)),
+        "ops" => out.extend(crate::opsval::cases(tier)),
         "tre" => out.extend(crate::tre::cases(tier)),
         "mig" => out.extend(crate::mig::cases(tier)),
         other => panic!("SYMX: unknown suite {other}"),
